@@ -123,6 +123,12 @@ def handle (op : String) (args : List String) : Option String :=
         let st ← flt; let i ← nat; let a ← list flt; let z ← list nat; pure (st, i, a, z)) args
       let (bs, s') := Halton.drawMany (Halton.rPoint Float.ofNat (fun x => x - Float.floor x) start alphas) 0 idx sizes
       pure (" | ".intercalate (bs.map (fun b => joinSp (b.map fl))) ++ s!" | cursor {s'}")
+  | "rseq.phi" => do
+      -- dims: the fixed point of the compute_phi loop (bit pattern) and alpha = (1/phi)^(1..dims)
+      let d ← run nat args
+      match Halton.phiLoop (1.0 : Float) (fun y => Float.pow y (1.0 / Float.ofNat (d + 1))) 10000 2.0 with
+      | none => pure "no-fixed-point"
+      | some phi => pure (floatToHex phi ++ " | " ++ fl (Halton.alphas (1.0 : Float) (fun x k => Float.pow x (Float.ofNat k)) phi d))
   | "cal.run" => Drv.Cal.handle args
   | "rl.run" => Drv.RL.handle args
   | "ckpt.saves" => do
